@@ -21,9 +21,14 @@ LEVEL_TEXT = {
                   "the oracle compares the real listing with the set of live contents.",
              note=BASE_NOTE + "Sequential, error-free histories (the property's premise). The concurrent quiescence clause is covered by the concurrent correspondence."),
  "C11": dict(text="Theorems C11_at_most_one_live, C11_loser_noninterference (a losing open is the identity on the directory), C11_release_by_drop/kill, "
-                  "C11_clones_keep_the_lock, C11_racing_opens over the OpenLock model, for all event sequences. K9 runs the same event scripts and racing opens "
-                  "(threads and processes, kill -9, clones, OrphanStats) on the real library.",
-             note=BASE_NOTE + "Partial: kernel flock semantics, cross-process behaviour and release on kill are assumptions of the model, exhibited only by K9."),
+                  "C11_clones_keep_the_lock, C11_racing_opens over the OpenLock model, for all event sequences; over the inode-level model OpenLock2 (open(LOCK) and flock "
+                  "as separate steps, name->inode binding, per-inode locks): C11_exclusive_under_any_interleaving (however the two halves of racing opens interleave "
+                  "with drops and kills, as long as the name LOCK is never unlinked), C11_late_locker_loses, C11_loser_changes_nothing_2, "
+                  "C11_inode_model_refines_atomic_model, and the vm_compute witness that unlinking the name gives two live handles. K9 runs the same event scripts "
+                  "(threads and processes, kill -9, clones, OrphanStats, opens parked at the scheduling point `open.flock`) on the real library and observes after "
+                  "every event that the name LOCK is still bound.",
+             note=BASE_NOTE + "Kernel flock semantics (a lock belongs to the open file description of an inode, is released on last close or process death, conflicts with "
+                              "every other description) are assumptions of the model, exhibited only by K9."),
  "C12": dict(text="Theorems C12_apply_preserves_exactness (IdxInv preserved, apply never errs), C12_counts_exact, C12_known_blobs_are_the_referenced, "
                   "C12_incremental_eq_recomputed, C12_load_rebuilds_counts, C12_store_counts/sizes (counts are those of the abstract key->content map under Live0). "
                   "K2/K4: known_blobs, stats, sizes of the real library after every op, reopen and crash recovery equal the model's and a recount from the spec map.",
@@ -110,9 +115,12 @@ for _p in ["C03", "C08"]:
 LEVEL_TEXT.update({
  "C04": dict(text="Theorems C04_no_dangling (every reachable state of the concurrent model, any number of threads, any programs, every schedule: every indexed key has its blob "
                   "with the committed bytes), C04_commit_window_protected, C04_never_deletes_protected (no step of any thread removes a referenced or protected blob), "
-                  "C04_C07_quiescent_exact, by the thread-modular invariant ConcInv. K6/K7: small concurrent programs run on the real library under schedules chosen by the "
+                  "C04_C07_quiescent_exact, by the thread-modular invariant ConcInv - all for ARBITRARY injected obstacles (`bad`: blob paths whose unlink / rename-onto / read fails, "
+                  "`ckbad`: failing checkpoints; proofs/ConcFault.v): C04_no_dangling_with_faults, C04_failed_delete_keeps_other_intents (the per-hash intent ledger is exact "
+                  "in every reachable state: finding F6), F6_fixed_run and F6_prefix_refuted (the pre-fix behaviour reaches a dangling key). K6/K7: small concurrent programs run on the real library under schedules chosen by the "
                   "model (threads parked at the `verif` scheduling points), every step's next point, lock bits, cas listing, index and intents compared; plus model-free "
-                  "random exploration of the same programs; oracle: after every step every indexed key's blob file exists.",
+                  "random exploration of the same programs (uniform and priority-based with one change point), both also with injected obstacles (`undeletable <content>`, "
+                  "`blockckpt`); oracle: after every step every indexed key's blob file exists.",
              note=BASE_NOTE + "Atomicity of the code between two scheduling points, parking_lot's mutual exclusion and the thread scheduler (any interleaving of the "
                               "hook-delimited steps) are assumptions of the model; K6 covers small programs only. Bytes of WAL/snapshot are not in this model."),
  "C05": dict(text="Theorems (props/C05.v, for every schedule of every set of thread programs of the concurrent model): C05_read_never_fails; "
